@@ -2,6 +2,7 @@
 //! C06 (path geometry vs reference walk over the route's own elevation / heading / catenary points).
 use crate::gen::network::{self as gn, GenNet, NetOpts};
 use crate::panics;
+use altrios_core::traits::SerdeAPI;
 use std::panic::AssertUnwindSafe;
 use crate::report::{close, jf, Ctx};
 use crate::rng::{hash_f64s, mix, Rng};
@@ -356,6 +357,30 @@ pub fn run_speed(ctx: &mut Ctx, rng: &mut Rng, thorough: bool) {
         ctx.rep.diag(json!({"case": ctx.case, "generated_network_rejected": e}));
         return;
     }
+    // A network whose links all carry typed speed sets can also be written in the legacy file layout. Half of those
+    // are: the simulator then works on what `Network::from_file` makes of the legacy file, the reference keeps
+    // working on the network as generated, so that anything the conversion loses or alters shows in the profile.
+    let mut legacy_links: Option<Vec<Link>> = None;
+    if rng.chance(0.5) {
+        if let Some(old) = serde_yaml::to_value(altrios_core::track::Network(net.links.clone())).ok().and_then(|v| crate::mon::netval::to_legacy(&v)) {
+            let dir = std::env::temp_dir().join(format!("altrios-verif-{}", std::process::id()));
+            let _ = std::fs::create_dir_all(&dir);
+            let f = dir.join(format!("legacy_speed_{}.yaml", ctx.case));
+            if let Ok(text) = serde_yaml::to_string(&old) {
+                if std::fs::write(&f, text).is_ok() {
+                    match panics::guard(AssertUnwindSafe(|| altrios_core::track::Network::from_file(&f))) {
+                        Ok(Ok(loaded)) if loaded.0.len() == net.links.len() => {
+                            ctx.count("obs.networks_passed_through_a_legacy_layout_file");
+                            legacy_links = Some(loaded.0);
+                        }
+                        _ => ctx.count("obs.legacy_layout_file_not_loaded"),
+                    }
+                    let _ = std::fs::remove_file(&f);
+                }
+            }
+        }
+    }
+    let code_links: Vec<Link> = legacy_links.unwrap_or_else(|| net.links.clone());
     ctx.rep.evaluations -= 1; // evaluations are counted per (route, train) pair
     for _ in 0..4 {
         ctx.rep.evaluations += 1;
@@ -366,7 +391,7 @@ pub fn run_speed(ctx: &mut Ctx, rng: &mut Rng, thorough: bool) {
         let sch = schedules(rng, route.len(), thorough);
         let mut any = false;
         for (k, mask) in sch.iter().enumerate() {
-            match build_path(&net.links, &route, &tp, *mask) {
+            match build_path(&code_links, &route, &tp, *mask) {
                 Ok(p) => {
                     any = true;
                     ctx.count("obs.paths_built");
